@@ -666,6 +666,10 @@ def _(vm, a, ci):
     raise Unmodelled('size_of::<' + t + '>')
 
 
+@path('must_use', 'hint::must_use', 'black_box', 'hint::black_box', 'identity', 'convert::identity')
+def _(vm, a, ci): return a[0]
+
+
 @path('unreachable_unchecked', 'std::hint::unreachable_unchecked', 'hint::unreachable_unchecked')
 def _(vm, a, ci): raise PanicEdge('ub', 'unreachable_unchecked() reached')
 
